@@ -321,6 +321,214 @@ def run_dispatcher_history(R, wd, mb, bk, ops, shared):
     return out
 
 
+
+# ---- reopen / clear / move-away in every phase of a capturing dispatcher
+
+BEGIN = b'<!--XSUPERVISOR:BEGIN-->'
+END = b'<!--XSUPERVISOR:END-->'
+PHASES = ('normal', 'capture', 'partial_begin', 'partial_end')
+PHASE_OPS = ('reopen', 'removelogs', 'rpc_clear', 'move_reopen', 'move_removelogs', 'move_rpc_clear', 'disp_reopen',
+             'disp_removelogs', 'move_disp_reopen')
+
+
+class _Recorder(object):
+    """Stream of an extra StreamHandler attached to a dispatcher's normallog: records,
+    in order, every message the dispatcher hands to that logger."""
+
+    def __init__(self, timeline, channel):
+        self.timeline = timeline
+        self.channel = channel
+
+    def write(self, b):
+        self.timeline.append(('w', self.channel, bytes(b)))
+
+    def flush(self):
+        pass
+
+
+def make_capture_rig(wd, mb, bk, tag='cap'):
+    """A real Subprocess whose stdout and stderr POutputDispatchers both have a log
+    file (separate directories) AND capture mode enabled."""
+    import shutil
+    from supervisor.options import ServerOptions, ProcessConfig
+    from supervisor.process import Subprocess
+    from supervisor.dispatchers import POutputDispatcher
+    from supervisor import events, rpcinterface, states, loggers
+    d = os.path.join(wd, tag)
+    shutil.rmtree(d, ignore_errors=True)
+    bases = {}
+    for ch in ('stdout', 'stderr'):
+        os.makedirs(os.path.join(d, ch))
+        bases[ch] = os.path.join(d, ch, 'log')
+    os.makedirs(os.path.join(d, 'moved'))
+    options = ServerOptions()
+    options.logger = _NullLogger()
+    options.loglevel = 20
+    options.strip_ansi = False
+    options.mood = states.SupervisorStates.RUNNING
+    feed = {}
+    options.readfd = lambda fd: feed.pop(fd, b'')
+    params = dict(
+        name='p', uid=None, command='/bin/cat', directory=None, umask=None,
+        priority=999, autostart=True, autorestart=False, startsecs=0, startretries=0,
+        stdout_logfile=bases['stdout'], stdout_capture_maxbytes=200, stdout_events_enabled=False, stdout_syslog=False,
+        stdout_logfile_backups=bk, stdout_logfile_maxbytes=mb,
+        stderr_logfile=bases['stderr'], stderr_capture_maxbytes=200,
+        stderr_logfile_backups=bk, stderr_logfile_maxbytes=mb,
+        stderr_events_enabled=False, stderr_syslog=False,
+        stopsignal=15, stopwaitsecs=1, stopasgroup=False, killasgroup=False, exitcodes=(0,),
+        redirect_stderr=False, environment=None, serverurl=None)
+    proc = Subprocess(ProcessConfig(options, **params))
+    proc.pid = 4242
+    proc.dispatchers = {5: POutputDispatcher(proc, events.ProcessCommunicationStdoutEvent, 5),
+                        7: POutputDispatcher(proc, events.ProcessCommunicationStderrEvent, 7)}
+    timeline = []
+    for fd, ch in ((5, 'stdout'), (7, 'stderr')):
+        h = loggers.StreamHandler(_Recorder(timeline, ch))
+        h.setFormat('%(message)s')
+        h.setLevel(proc.dispatchers[fd].normallog.level)
+        proc.dispatchers[fd].normallog.addHandler(h)
+
+    class GConfig(object):
+        name = 'g'
+
+    class Group(object):
+        config = GConfig()
+        processes = {'p': proc}
+
+    class Sup(object):
+        pass
+    sup = Sup()
+    sup.options = options
+    sup.process_groups = {'g': Group()}
+    iface = rpcinterface.SupervisorNamespaceRPCInterface(sup)
+    return d, bases, proc, feed, iface, timeline
+
+
+def capture_script(phase, opname, channel, cont, marker):
+    """Harness steps: ('feed', channel, bytes) | ('op', name, channel)."""
+    other = 'stderr' if channel == 'stdout' else 'stdout'
+    steps = [('feed', other, b'o' * 30)]
+    if phase == 'normal':
+        steps.append(('feed', channel, b'A' * 30))
+    elif phase == 'capture':
+        steps.append(('feed', channel, b'x' * 30 + BEGIN + b'captured-so-far'))
+    elif phase == 'partial_begin':
+        steps.append(('feed', channel, b'y' * 30 + BEGIN[:7]))
+    else:  # inside a capture section with part of the END token held back
+        steps.append(('feed', channel, b'z' * 30 + BEGIN + b'cap' * 10 + END[:9]))
+    steps.append(('op', opname, channel))
+    if phase in ('capture', 'partial_end'):
+        tail = (b'more' + END) if phase == 'capture' else END[9:]
+        if cont == 0:
+            steps.append(('feed', channel, tail + marker))
+        else:
+            steps.append(('feed', channel, tail))
+            steps.append(('feed', channel, marker))
+    elif phase == 'partial_begin':
+        steps.append(('feed', channel, (BEGIN[7:] + b'c' + END + marker) if cont == 0 else (b'-not-a-token ' + marker)))
+    else:
+        steps.append(('feed', channel, marker))
+    steps.append(('feed', other, b'p' * 40))
+    steps.append(('feed', channel, b'q' * 40))
+    return steps
+
+
+def run_capture_script(R, wd, mb, bk, steps):
+    """Returns (timeline of ('w', ch, bytes) / ('c'|'r'|'d', ch) with snapshots, problems)."""
+    import shutil
+    d, bases, proc, feed, iface, timeline = make_capture_rig(wd, mb, bk)
+    fds = {'stdout': 5, 'stderr': 7}
+    out = []          # (event, {channel: snapshot}) ; snapshot None when not observed
+    problems = []
+    moved = [0]
+
+    def snaps():
+        return {ch: R.snapshot(os.path.dirname(bases[ch]), bases[ch]) for ch in bases}
+
+    def drain(upto_snap):
+        # events recorded since the last step: only the last one carries the observed files
+        while timeline:
+            ev = timeline.pop(0)
+            out.append((ev, None))
+        if out:
+            out[-1] = (out[-1][0], upto_snap)
+    try:
+        for st in steps:
+            try:
+                with R.quiet_stderr():
+                    if st[0] == 'feed':
+                        feed[fds[st[1]]] = st[2]
+                        proc.dispatchers[fds[st[1]]].handle_read_event()
+                        drain(snaps())
+                    else:
+                        name, ch = st[1], st[2]
+                        if name.startswith('move_'):
+                            # logrotate-style: the live log is moved away, then the daemon is told to reopen / clear
+                            for c2 in ([ch] if name.startswith('move_disp_') else list(bases)):
+                                if os.path.exists(bases[c2]):
+                                    moved[0] += 1
+                                    os.rename(bases[c2], os.path.join(d, 'moved', 'm%d' % moved[0]))
+                                timeline.append(('d', c2))
+                            drain(snaps())
+                            name = name[5:]
+                        if name == 'reopen':
+                            proc.reopenlogs()
+                            kinds = [('r', 'stdout'), ('r', 'stderr')]
+                        elif name == 'removelogs':
+                            proc.removelogs()
+                            kinds = [('c', 'stdout'), ('c', 'stderr')]
+                        elif name == 'rpc_clear':
+                            iface.clearProcessLogs('g:p')
+                            kinds = [('c', 'stdout'), ('c', 'stderr')]
+                        elif name == 'disp_reopen':
+                            proc.dispatchers[fds[ch]].reopenlogs()
+                            kinds = [('r', ch)]
+                        elif name == 'disp_removelogs':
+                            proc.dispatchers[fds[ch]].removelogs()
+                            kinds = [('c', ch)]
+                        else:
+                            raise AssertionError(name)
+                        timeline.extend(kinds)
+                        s = snaps()
+                        drain(s)
+                        for k, c2 in kinds:
+                            if not (isinstance(s[c2], dict) and 0 in s[c2]):
+                                problems.append('after %s (%s) there is no file at the configured %s log path'
+                                                % (st[1], 'reopen' if k == 'r' else 'clear', c2))
+            except Exception as e:
+                problems.append('exception out of %r: %r' % (st[:2], e))
+                break
+    finally:
+        for disp in proc.dispatchers.values():
+            try:
+                disp.close()
+            except Exception:
+                pass
+        shutil.rmtree(d, ignore_errors=True)
+    final = out[-1][1] if out and out[-1][1] else None
+    return out, final, problems
+
+
+def capture_history_terms(out, channel):
+    """The single-handler model history of one channel: its writes and the
+    clear / reopen / move-away operations that reached it."""
+    items = []
+    for ev, snap in out:
+        if ev[1] != channel:
+            # another channel's event: nothing happens to this file, but keep an observation point
+            continue
+        if ev[0] == 'w':
+            o = ('w', list(ev[2]))
+        elif ev[0] == 'd':
+            o = ('d', 0)
+        else:
+            o = (ev[0],)
+        s = snap[channel] if snap else None
+        items.append('(%s,%s)' % (op_term(o), 'None' if s is None or not isinstance(s, dict) else 'Some (%s)' % snap_term(s)))
+    return '[%s]' % ';'.join(items)
+
+
 # ------------------------------------------------------------------- the run
 
 WITNESS = dict(n=2, mb=10, bk=2, sizes=[4] * 12)      # DESIGN: alternating 4-byte writes
@@ -524,6 +732,58 @@ def _run(chk, wd, proved):
                           'case': d2meta[i]}), nofail=True)
 
     chk.note('t_dispatcher_done=%.1f' % (__import__('time').time() - chk.t0))
+    # ---- 5. reopen / clear / move-away in every phase of a CAPTURING dispatcher (log file + capture_maxbytes > 0)
+    ccases, cmeta = [], []
+    confs = [(0, 0), (1000, 1), (64, 2)] if chk.tier == 'quick' else [(0, 0), (0, 2), (1000, 0), (1000, 1), (64, 1), (64, 2), (90, 3)]
+    n_scripts = 0
+    for (mb, bk) in confs:
+        for phase in PHASES:
+            for opname in PHASE_OPS:
+                for channel in ('stdout', 'stderr'):
+                    for cont in (0, 1):
+                        n_scripts += 1
+                        marker = (b'MARK-%s-%s-%s-%d-' % (phase.encode(), opname.encode(), channel.encode(), cont)) + b'#' * 12
+                        steps = capture_script(phase, opname, channel, cont, marker)
+                        out, final, problems = run_capture_script(R, wd, mb, bk, steps)
+                        chk.dist('capture_phase:%s' % phase)
+                        chk.dist('capture_op:%s' % opname)
+                        # the property, on the implementation: what is logged after the operation is in the
+                        # file(s) at the configured path
+                        if not problems:
+                            if not (isinstance(final, dict) and isinstance(final.get(channel), dict)):
+                                problems.append('no observation of the %s log' % channel)
+                            else:
+                                files = final[channel]
+                                cat = b''.join(files[i] for i in sorted(files, reverse=True))
+                                logged = b''.join(ev[2] for ev, _ in out if ev[0] == 'w' and ev[1] == channel)
+                                if marker not in logged:
+                                    problems.append('harness: the marker never reached the normal log (%r)' % (logged[-80:],))
+                                elif marker not in cat:
+                                    problems.append('output logged after %s in phase %s is not in the files at the configured '
+                                                    '%s path (they hold %d bytes)' % (opname, phase, channel, len(cat)))
+                                other = 'stderr' if channel == 'stdout' else 'stdout'
+                                fo = final.get(other)
+                                if isinstance(fo, dict) and b'p' * 40 not in b''.join(fo[i] for i in sorted(fo, reverse=True)):
+                                    problems.append('output of the other channel logged after %s is not at its path' % opname)
+                        for pr in problems[:1]:
+                            chk.violation(_j({'kind': 'C19 fails on the implementation (capturing dispatcher)', 'what': pr,
+                                              'maxbytes': mb, 'backups': bk, 'phase': phase, 'operation': opname,
+                                              'channel': channel, 'steps': [list(x) for x in steps],
+                                              'events': [[list(ev), sn] for ev, sn in out]}))
+                        for ch in ('stdout', 'stderr'):
+                            ccases.append('(%d,%d,%s)' % (mb, bk, capture_history_terms(out, ch)))
+                            cmeta.append((mb, bk, phase, opname, channel, ch, steps))
+    bad, errs = vlib.coq_compare(IMPORTS, 'Z * Z * list (op * option snap)', 'check_history_opt', ccases, wd,
+                                 tag='capt', shard=60, preamble=PRE)
+    for e in errs:
+        chk.violation({'kind': 'model evaluation failed', 'part': 'capturing dispatcher', 'error': e}, nofail=True)
+    for i in bad[:5]:
+        mb, bk, phase, opname, channel, ch, steps = cmeta[i]
+        chk.violation(_j({'kind': 'model and implementation disagree', 'part': 'capturing dispatcher', 'maxbytes': mb,
+                          'backups': bk, 'phase': phase, 'operation': opname, 'channel_operated': channel,
+                          'channel_compared': ch, 'steps': [list(x) for x in steps], 'coq_case': ccases[i][:3000]}),
+                      nofail=True)
+    chk.note('t_capture_done=%.1f' % (__import__('time').time() - chk.t0))
     if shared_hits:
         chk.known_finding('C19-shared', 'more than one rotating handler on one path (stdout and stderr, or two logs, configured '
                                         'to the same file): a backup shorter than maxbytes, a live log at or above maxbytes or '
@@ -532,7 +792,7 @@ def _run(chk, wd, proved):
     if not proved:
         chk.violation({'kind': 'proof obligation no longer checks', 'detail': chk.proof_failure,
                        'file': 'coq/props/C19.v'}, nofail=not chk.violations)
-    n_eval = total_nodes + len(hcases) + len(mcases) + len(dcases) + len(m2)
+    n_eval = total_nodes + len(hcases) + len(mcases) + len(dcases) + len(m2) + len(ccases)
     cov['evaluations'] = n_eval
     cov['distinct_nontrivial'] = total_nodes + len(distinct)
     cov['traces_validated_against_impl'] = n_eval
@@ -541,9 +801,12 @@ def _run(chk, wd, proved):
                    '0..3 as prefix trees (%d distinct prefixes, each compared after its last write: listing and every '
                    'file\'s content); plus %d random single-handler histories with clear/reopen/external delete/replace, '
                    '%d histories of 2-3 handlers on one path, %d histories through the real POutputDispatcher / '
-                   'Subprocess.reopenlogs / clearProcessLogs; distinct = distinct prefixes + distinct (op kind, file sizes) '
-                   'random histories' % ('5 (4 for maxbytes > 3)' if chk.tier == 'quick' else '6 (5 for maxbytes > 4)',
-                                         total_nodes, len(hcases), len(mcases), len(dcases) + len(m2)))
+                   'Subprocess.reopenlogs / clearProcessLogs; %d scripts on real CAPTURING dispatchers (log file and '
+                   'capture_maxbytes > 0, stdout and stderr): reopen / removelogs / clearProcessLogs RPC / per-dispatcher calls, '
+                   'also after the live log was moved away, in each phase (normal, inside a capture section, partial BEGIN '
+                   'token held back, partial END token held back); distinct = distinct prefixes + distinct (op kind, file '
+                   'sizes) random histories' % ('5 (4 for maxbytes > 3)' if chk.tier == 'quick' else '6 (5 for maxbytes > 4)',
+                                         total_nodes, len(hcases), len(mcases), len(dcases) + len(m2), n_scripts))
     cov['samples'] = [_j({'maxbytes': m[0], 'backups': m[1], 'ops': m[2], 'observed': m[3]}) for m in hmeta[3:5]]
 
 
